@@ -1338,6 +1338,10 @@ func (g *gen) posOnlyCopy(t string) (string, bool) {
 // nearCopy returns code that differs from t in a single token, preferring the
 // tokens go/ast represents only by the validity of a position.
 func (g *gen) nearCopy(t string) string {
+	if g.chance(0.12) && parses("package p\nvar _ = ("+t+")") {
+		// the same expression in redundant parentheses: not the same syntax
+		return "(" + t + ")"
+	}
 	if g.chance(0.25) {
 		if m := g.structMutate(t); m != t && parses("package p\nvar _ = "+m) {
 			return m
@@ -1371,13 +1375,20 @@ func (g *gen) nearCopy(t string) string {
 func (g *gen) fileWith(p *pattern, frags []string, pkg string, imports []string) string {
 	var sb strings.Builder
 	sb.WriteString("package " + pkg + "\n\n")
+	// the path of an import may be spelled as a raw string: the same import
+	spell := func(spec string) string {
+		if g.chance(0.08) && strings.Count(spec, `"`) == 2 && !strings.Contains(spec, "`") {
+			return strings.Replace(strings.Replace(spec, `"`, "`", 1), `"`, "`", 1)
+		}
+		return spec
+	}
 	switch {
 	case len(imports) == 0:
 	case len(imports) == 1 && g.chance(0.5):
-		sb.WriteString("import " + imports[0] + "\n\n")
+		sb.WriteString("import " + spell(imports[0]) + "\n\n")
 	case g.chance(0.25):
 		for _, i := range imports {
-			sb.WriteString("import " + i + "\n")
+			sb.WriteString("import " + spell(i) + "\n")
 		}
 		sb.WriteString("\n")
 	default:
@@ -1386,9 +1397,25 @@ func (g *gen) fileWith(p *pattern, frags []string, pkg string, imports []string)
 			if k > 0 && g.chance(0.2) {
 				sb.WriteString("\n")
 			}
-			sb.WriteString("\t" + i + "\n")
+			sb.WriteString("\t" + spell(i) + "\n")
 		}
 		sb.WriteString(")\n\n")
+	}
+	for _, spec := range imports {
+		// the only code that refers to an import may be the first declaration after the imports
+		if !g.chance(0.15) {
+			continue
+		}
+		name := ""
+		if f := strings.Fields(spec); len(f) == 2 {
+			name = f[0]
+		} else {
+			name = baseOf(strings.Trim(spec, `"`))
+		}
+		if name != "_" && name != "." && name != "" && !strings.HasPrefix(name, "impname") {
+			sb.WriteString("var _ = " + name + "." + g.pick("Value", "New()", "T{}") + "\n\n")
+			break
+		}
 	}
 	nf := 0
 	fn := func(body string) {
